@@ -101,6 +101,34 @@ class CHECK(Check):
                     for p in positions:
                         for s in ('nl', 'block_nl', 'line'):
                             out.append(('seq', seq, lead, ((p, s),)))
+        # long statements: an error at the end of a pumped list (the reporter re-parses the statement for every candidate suggestion)
+        for n in (3, 40, 2500):
+            rows = ', '.join(['(1, 2)'] * n)
+            cols = ', '.join(['a'] * n)
+            conj = ' and '.join(['a = 1'] * n)
+            for text in (f'insert into t values {rows} (1, 2)', f'insert into t values {rows}, (1, 2) (3)', f'insert into t values {rows},, (1, 2)',
+                         f'select {cols} b c from t', f'select {cols},, a from t', f'select {cols} from t where {conj} and and a = 1',
+                         f'select {cols} from t where {conj} a = 1', f'select * from t where a in ({cols} a)', f'select f({cols} a) from t',
+                         ' union '.join(['select 1'] * n) + ' union union select 1', f'select * from t order by {cols} a b',
+                         f'create table t ({", ".join(["a int"] * n)} b int)', f'select {cols} from t group by {cols} having a a'):
+                out.append(('text', text, 'none', ()))
+        # illegal character after a token that spans a line break (multi-word keywords, quoted strings / names with a newline inside,
+        # comments spanning lines)
+        spanning = ["'a\nb'", '"a\nb"', '`a\nb`', "@'a\nb'", '/* a\nb */ x', '-- c\nx', "'a\n\nb'"]
+        for t in m.terminals:
+            sp = m.lexeme.get(t)
+            if sp and ' ' in sp:
+                cand = sp.replace(' ', '\n')
+                try:
+                    if m.lex_types(cand) == [t]:
+                        spanning.append(cand)
+                except parsing.LexError:
+                    pass
+        for tok in spanning:
+            for ch in ('#', '^', '\\'):
+                for pre in ('', 'select a from t where a ', 'select\n a\nfrom t where a '):
+                    for gap in (' ', '\n', ' x '):
+                        out.append(('illegal_text', pre + tok + gap + ch + ' y', ch, None))
         # illegal characters
         for key, seq in list(reps.items())[:200]:
             for ch in ('#', '^', '&', '|', '!', '\\', 'é'):
@@ -112,7 +140,7 @@ class CHECK(Check):
     def build(self, case):
         kind, seq, lead, devs = case
         m = self.m
-        if kind == 'text':
+        if kind in ('text', 'illegal_text'):
             return seq
         if kind == 'illegal':
             ch, (p, sepk) = lead, devs
@@ -135,7 +163,7 @@ class CHECK(Check):
         kind = case[0]
         layout = 'default' if kind == 'text' or (case[2] == 'none' and not case[3]) else 'layout'
         out = parsing.outcome(text, 'mindsdb')
-        if kind == 'illegal':
+        if kind in ('illegal', 'illegal_text'):
             return self.run_illegal(res, case, text, out)
         if out.kind != 'perr':
             res.count('not_a_parsing_error_' + out.kind)
@@ -258,12 +286,12 @@ class CHECK(Check):
         msg = str(out.exc).split('\n')
         ch = case[2]
         stripped = parsing.strip_tail(text)
-        pos = stripped.index(ch)
+        pos = stripped.rindex(ch + ' y') if case[0] == 'illegal_text' else stripped.index(ch)
         line_no = stripped.count('\n', 0, pos)
         src_line = stripped.split('\n')[line_no]
         col = pos - (stripped.rfind('\n', 0, pos) + 1)
         res.key(('illegal', msg[0], msg[-1]))
-        feats = ('first-line' if line_no == 0 else 'later-line') + ('+multiline' if '\n' in stripped else '')
+        feats = ('first-line' if line_no == 0 else 'later-line') + ('+multiline' if '\n' in stripped else '') + ('+after-spanning-token' if case[0] == 'illegal_text' else '')
         if msg[0] != f'Illegal character {ch!r}:':
             res.violation(f'lexer|names-wrong-character|{feats}', f'{text!r}: {msg[0]!r}')
             return res
@@ -283,7 +311,7 @@ class CHECK(Check):
                 'separators': list(SEPS), 'leads': list(LEAD),
                 'rule': 'every rejected insert/replace deviation with every terminal at every abstract state + truncations (default layout); one '
                         'representative per state x every single separator deviation at every position x leads (thorough: pairs); illegal characters '
-                        'at every position of 200 representatives; distinct_nontrivial = distinct (header, caret line, suggestions)'}
+                        'at every position of 200 representatives and after every token that can span a line break; errors at the end of pumped lists (3, 40, 2500 elements); distinct_nontrivial = distinct (header, caret line, suggestions)'}
 
     def describe_case(self, case):
         return {'kind': case[0], 'text': self.build(case)}
